@@ -66,7 +66,13 @@ func main() {
 
 	// calibration: one child per mode must come up and pass the probes with an empty barrage
 	for _, m := range []string{"netx", "fd"} {
-		r := runBarrage(barrage{mode: m, label: "calibration"}, timing{probe: 6 * time.Second, step: 4 * time.Second})
+		var r *result
+		for attempt := 0; attempt < 3; attempt++ { // a loaded machine may miss the first deadline; a broken stack misses all
+			r = runBarrage(barrage{mode: m, label: "calibration"}, timing{probe: time.Duration(6+6*attempt) * time.Second, step: 6 * time.Second})
+			if r.outcome == 0 {
+				break
+			}
+		}
 		if r.outcome != 0 {
 			// the stack does not even serve an untouched peer: report it as a case with an empty barrage
 			fmt.Fprintf(out, "# calibration failed in mode %s: outcome %d %s\n%s\n", m, r.outcome, r.note, r.coq())
@@ -108,7 +114,7 @@ func main() {
 				if r.outcome != 0 {
 					// confirm on a fresh child before calling it a failure (guards against a
 					// loaded machine), then shrink
-					r2 := runBarrage(bs[i], tm)
+					r2 := runBarrage(bs[i], timing{probe: 2 * tm.probe, step: 2 * tm.step})
 					if r2.outcome == 0 {
 						r.flaky = true
 						r2.flakyFirst = r.outcome
@@ -159,6 +165,16 @@ func main() {
 	sort.Strings(ks)
 	fmt.Fprintf(out, "# seed %d barrages %d frames %d failing %d flaky-first-run %d wall %.1fs\n", *seed, len(results), frames, fails, flaky, time.Since(t0).Seconds())
 	fmt.Fprintf(out, "# kinds %s\n", strings.Join(ks, " "))
+	var hs []int
+	for k := range hist {
+		hs = append(hs, k)
+	}
+	sort.Ints(hs)
+	var hp []string
+	for _, k := range hs {
+		hp = append(hp, fmt.Sprintf("%d:%d", k, hist[k]))
+	}
+	fmt.Fprintf(out, "# frames-per-barrage (as sent, fd barrages include the barrier frame) %s\n", strings.Join(hp, " "))
 	for i, r := range results {
 		if r == nil {
 			continue
